@@ -40,21 +40,22 @@ Print Assumptions C07_fragment_idle_means_nothing_pending.
 
 (* ---- the whole action grammar, every configuration without defoverrides (Proofs/C07Kanata.v) ----
    IdleK: the conjuncts Kanata::is_idle reads (nothing queued / waiting / one-shot / sequence / macro / scroll / move / replay /
-   caps-word / pending virtual key, no chords v2) in the form reachable after a millisecond in which nothing happened: the OS key
+   caps-word / pending virtual key; a chords-v2 machine, if any, with nothing queued and nothing active) in the form reachable after a millisecond in which nothing happened: the OS key
    list is up to date and no unmod / unshift key is held.  In such a state the model's is_idle holds, one millisecond emits nothing
-   and leads to such a state again with the layout only aged; so do n milliseconds.  What a sleeping loop skips can therefore
+   and leads to such a state again with the layout only aged (`idle_aged`: histories age, an idle chords-v2 machine moves its own
+   countdowns; without chords v2 it is `aged`, C07_idle_aged_without_chords); so do n milliseconds.  What a sleeping loop skips can therefore
    reach the output only through the ages of the key history, which `can_block` guards with the largest key-timing threshold *)
 From KV Require Import Proofs.C07Kanata.
 Theorem C07_kanata_idle_tick_is_silent : forall cfg k,
   kc_overrides cfg = [] -> kc_seq_always_on cfg = false -> IdleK k ->
-  exists k', k_tick cfg k = Ok (k', []) /\ IdleK k' /\ k_layout k' = aged (k_layout k) /\ k_prev_keys k' = k_prev_keys k /\
+  exists k', k_tick cfg k = Ok (k', []) /\ IdleK k' /\ k_layout k' = idle_aged (k_layout k) /\ k_prev_keys k' = k_prev_keys k /\
              k_seq k' = k_seq k /\ k_ticks_since_idle k' = k_ticks_since_idle k /\ k_record k' = tick_record (k_record k).
 Proof. exact idle_tick_is_silent. Qed.
 Print Assumptions C07_kanata_idle_tick_is_silent.
 
 Theorem C07_kanata_idle_ticks_are_silent : forall cfg, kc_overrides cfg = [] -> kc_seq_always_on cfg = false ->
   forall n k, IdleK k ->
-  exists k', k_ticks cfg n k = Ok (k', []) /\ IdleK k' /\ k_layout k' = aged_n n (k_layout k) /\ k_prev_keys k' = k_prev_keys k /\
+  exists k', k_ticks cfg n k = Ok (k', []) /\ IdleK k' /\ k_layout k' = idle_aged_n n (k_layout k) /\ k_prev_keys k' = k_prev_keys k /\
              k_seq k' = k_seq k /\ k_ticks_since_idle k' = k_ticks_since_idle k.
 Proof. exact idle_ticks_are_silent. Qed.
 Print Assumptions C07_kanata_idle_ticks_are_silent.
@@ -62,3 +63,7 @@ Print Assumptions C07_kanata_idle_ticks_are_silent.
 Theorem C07_idle_state_is_idle : forall k, IdleK k -> k_live_reload_requested k = false -> k_is_idle k = true.
 Proof. exact idlek_is_idle. Qed.
 Print Assumptions C07_idle_state_is_idle.
+
+Theorem C07_idle_aged_without_chords : forall l, chords2 l = None -> idle_aged l = aged l.
+Proof. exact idle_aged_without_chords. Qed.
+Print Assumptions C07_idle_aged_without_chords.
